@@ -690,6 +690,10 @@ pub struct BurstCase {
     pub n: u16,
     pub producers: u8,
     pub seed: u32,
+    /// while the worker is stalled a flush is requested and its future dropped after one poll (a
+    /// caller whose timeout expired); entries sent afterwards must still be merged and emitted
+    #[serde(default)]
+    pub cancelled_flush: bool,
 }
 
 pub fn check_worker_burst(case: &BurstCase) -> CaseResult {
@@ -736,8 +740,32 @@ pub fn check_worker_burst(case: &BurstCase) -> CaseResult {
             });
         }
     });
+    let mut late: Vec<In> = vec![];
+    if case.cancelled_flush {
+        let mut f = Box::pin(sink.flush());
+        let _ = crate::bq::poll_once(f.as_mut());
+        drop(f);
+    }
     hold.store(false, Ordering::SeqCst);
-    if crate::bq::block_on_timeout(sink.flush(), Duration::from_secs(30)).is_none() {
+    if case.cancelled_flush {
+        // the worker serves the abandoned request; whatever is sent afterwards still counts
+        std::thread::sleep(Duration::from_millis(2));
+        for j in 0..5u32 {
+            let i = In {
+                word: 1,
+                n: 0,
+                total: 1000 + j,
+                last: j,
+                lat_ms: 7,
+                dist: 3,
+            };
+            sink.send(i.item().close());
+            all.entry(i.key()).or_default().add(&i);
+            late.push(i);
+        }
+    }
+    let flushed = no_panic("worker-flush-after-a-cancelled-flush", || crate::bq::block_on_timeout(sink.flush(), Duration::from_secs(30)))?;
+    if flushed.is_none() {
         return Ok(vec!["inconclusive-timeout"]);
     }
     let got = out.out.lock().unwrap().clone();
@@ -761,6 +789,9 @@ pub fn check_worker_burst(case: &BurstCase) -> CaseResult {
         );
     }
     let mut classes: Classes = vec!["nt"];
+    if !late.is_empty() {
+        classes.push("entries-sent-after-a-cancelled-flush");
+    }
     if n > 1024 {
         classes.push("more-than-1024-queued");
     }
@@ -918,15 +949,15 @@ pub fn run(ctx: &mut Ctx) {
     ctx.explore(
         SubCfg::new(
             "c10-worker-burst",
-            "WorkerSink whose worker thread is stalled inside its first merge (harness-owned probe) while 1-4 producer threads send 2-20 000 entries over up to 600 keys; the stall is then released and flush().await taken. Oracle: per key the emitted aggregates sum to the inputs with the same number of observations - a send never drops an entry, however far the producers are ahead of the worker. Non-trivial = every case",
-            if q { 12 } else { 200 },
+            "WorkerSink whose worker thread is stalled inside its first merge (harness-owned probe) while 1-4 producer threads send 2-20 000 entries over up to 600 keys; in half of the cases a flush is requested during the stall and its future dropped after one poll; the stall is then released, (after a cancelled flush) five more entries are sent, and flush().await taken. Oracle: per key the emitted aggregates sum to the inputs with the same number of observations - a send never drops an entry, however far the producers are ahead of the worker. Non-trivial = every case",
+            if q { 40 } else { 400 },
         )
         .threads(ctx.tier.pick(4, 8))
         .shrink_iters(12)
-        .mandatory(&["more-than-1024-queued", "more-than-8192-queued"]),
+        .mandatory(&["more-than-1024-queued", "more-than-8192-queued", "entries-sent-after-a-cancelled-flush"]),
         || {
-            (prop_oneof![2u16..1500, 1025u16..9000, 8193u16..20000], any::<u8>(), any::<u32>())
-                .prop_map(|(n, producers, seed)| BurstCase { n, producers, seed })
+            (prop_oneof![2u16..1500, 1025u16..9000, 8193u16..20000], any::<u8>(), any::<u32>(), any::<bool>())
+                .prop_map(|(n, producers, seed, cancelled_flush)| BurstCase { n, producers, seed, cancelled_flush })
         },
         check_worker_burst,
     );
